@@ -20,6 +20,9 @@ ASSUMPTIONS = [
     "whether anything may run before a loop is reported is not stated by the property: counted (n_loop_reported_after_partial_run), not judged",
     "target names are t0..t4; set iteration order of names is fixed by PYTHONHASHSEED=0 in the main run (all labellings are enumerated, "
     "which permutes the roles over that order); other hash seeds only in the thorough tier and only for n<=4",
+    "while the runner executes, Python's recursion limit is lowered to 80 frames above the caller (a correct runner needs a few frames per "
+    "target; a missed loop then fails after 80 frames instead of 1000, with the same RecursionError)",
+    "VERIF_SEED is not used: both tiers explore their bound completely",
     "targets requested twice, unknown targets, the default-target path and task failures are outside the property",
 ]
 CLAIM = {
@@ -258,6 +261,12 @@ def run(ctx):
     ctx.sample({"deps": "t0>t1,t0>t2,t1>t2", "request": ["t0"], "reference": "no loop; history is t2,t1,t0"})
     ctx.sample({"deps": "t0>t1,t1>t0,t2", "request": ["t2"], "reference": "no loop (cycle not reachable from the request); history is t2"})
     ctx.sample({"deps": "t0>t1,t1>t1", "request": ["t0"], "reference": "loop (self-dependency of t1 is reachable)"})
+    # hash-seed axis (thorough): the n<=4 space again under other string-hash seeds, one sub-process each, started first
+    procs = []
+    if not ctx.quick:
+        for hs in (1, 2, 3):
+            env = dict(os.environ, PYTHONHASHSEED=str(hs), VF_REPO=REPO)
+            procs.append((hs, subprocess.Popen([sys.executable, "-m", "vf.checks.c34"], cwd=VERIF, env=env, stdout=subprocess.PIPE, text=True)))
     plan = [(1, True, 1, False, "direct"), (2, True, 1, False, "direct"), (3, True, 1, False, "direct"),
             (1, True, 1, False, "api"), (2, True, 1, False, "api"), (3, True, 1, False, "api"),
             (4, True, 61, False, "direct"),
@@ -271,12 +280,7 @@ def run(ctx):
             raise HarnessError("enumerated %d graphs for n=%d, expected %d" % (ctx.counters.get("graphs_n%d" % n, 0), n, e))
     ctx.note("requests_per_graph", {n: len(requests(n, mode_for(n))) for n in (1, 2, 3, 4, 5)})
     ctx.note("hash_seed", os.environ.get("PYTHONHASHSEED", "random"))
-    # hash-seed axis (thorough): the n<=4 space again under other string-hash seeds, one sub-process each
-    if not ctx.quick:
-        procs = []
-        for hs in (1, 2, 3):
-            env = dict(os.environ, PYTHONHASHSEED=str(hs), VF_REPO=REPO)
-            procs.append((hs, subprocess.Popen([sys.executable, "-m", "vf.checks.c34"], cwd=VERIF, env=env, stdout=subprocess.PIPE, text=True)))
+    if procs:
         for hs, pr in procs:
             out, _ = pr.communicate()
             if pr.returncode != 0:
